@@ -283,10 +283,12 @@ class GraphSim:
         ch = self.ctx.ch
         dead = list(g.m.dead) + [max(list(g.m.nodes) + g.m.dead) + 1 + ch.draw(3, "beyond")]
         d = ch.pick(dead, "dead-idx")
-        which = ch.draw(4, "failing-call")
-        name = ["delete_node", "children", "num_out_ports", "lookup"][which]
+        which = ch.draw(5, "failing-call")
+        name = ["delete_node", "children", "num_out_ports", "lookup", "add_node(parent=dead)"][which]
         try:
-            if which == 0:
+            if which == 4:
+                g.h.add_node(self.cat[0][1](), Node(d))
+            elif which == 0:
                 g.h.delete_node(Node(d))
             elif which == 1:
                 g.h.children(Node(d))
